@@ -57,8 +57,8 @@ def gen_cases(tier, seed):
                 cases.append({"kind": "family", "family": fam, "subject": sk, "rep": r})
     for i in range(60 if tier == "quick" else 400):
         cases.append({"kind": "history", "n_ops": [10, 20, 40][i % 3], "i": i})
-    for i in range(80 if tier == "quick" else 320):
-        cases.append({"kind": "helper", "scenario": ["ui_json_read", "monitored_copy", "copy_out", "context_manager", "fetch_active", "ui_json_write", "elevate_then_default", "ui_json_then_default"][i % 8], "i": i})
+    for i in range(100 if tier == "quick" else 400):
+        cases.append({"kind": "helper", "scenario": ["ui_json_read", "monitored_copy", "copy_out", "context_manager", "fetch_active", "ui_json_write", "elevate_then_default", "ui_json_then_default", "fallback_read_only", "helper_requests_read"][i % 10], "i": i})
     return cases
 
 
@@ -664,6 +664,69 @@ def run_helper(case, rec, rng, path, index, d):
         watch.judge(rec, ro, "reopen-default-mode", label, sc)
         ro.close()
         judge_close(rec, watch, label)
+    elif sc == "fallback_read_only":
+        # another reader holds the file: a default (r+) open falls back to read-only, and must then behave read-only
+        import h5py
+
+        holder = h5py.File(path, "r")
+        try:
+            ro = Workspace(path)
+            mode = ro.geoh5.mode
+            rec.check("C10.mode", mode == "r", op="open-falls-back", cls=label, attr=sc, detail=f"default open of a file held by a reader gave mode {mode!r}")
+            e = ro.get_entity(obj_uid)[0]
+            holder_obj = ro.get_entity(data_holder)[0]
+            flt = [c for c in holder_obj.children if c.name == "d_float"][0]
+            writes = [("rename", lambda: setattr(e, "name", "x")), ("set-values", lambda: setattr(flt, "values", np.ones(6))), ("clear-color-map", lambda: setattr(flt.entity_type, "color_map", None)),
+                      ("type-units", lambda: setattr(flt.entity_type, "units", "m")), ("add_data", lambda: holder_obj.add_data({"zz": {"values": np.zeros(6)}})),
+                      ("remove", lambda: ro.remove_entity([c for c in holder_obj.children if c.name == "pa"][0])), ("comment", lambda: holder_obj.add_comment("c", author="a"))]
+            for wname, fn in writes:
+                exc = None
+                try:
+                    fn()
+                except Exception as e2:  # noqa: BLE001
+                    if not exc_origin(e2)[0]:
+                        raise
+                    exc = e2
+                rec.check("C10.must-raise", exc is not None, op="write-after-fallback:" + wname, cls=label, attr=sc, detail=f"{wname} returned without an error on a workspace whose open fell back to read-only")
+                watch.judge(rec, ro, "write-after-fallback:" + wname, label, sc)
+            ro.close()
+        finally:
+            holder.close()
+        judge_close(rec, watch, label)
+    elif sc == "helper_requests_read":
+        # a closed workspace that was constructed writable is handed to helpers that ask for (or imply) read access
+        rw = Workspace(path)
+        rw.close()
+        watch = FileWatch(path)  # the r+ open / close above may have touched the file: baseline after it
+        with fetch_active_workspace(rw, mode="r") as w:
+            mode = w.geoh5.mode
+            rec.check("C10.mode", mode == "r", op="fetch_active_workspace(mode='r')", cls=label, attr=sc, detail=f"asked for mode 'r' on a closed workspace constructed 'r+': got a handle in mode {mode!r}")
+            e = w.get_entity(obj_uid)[0]
+            exc = None
+            try:
+                e.name = "renamed through a read request"
+            except Exception as e2:  # noqa: BLE001
+                if not exc_origin(e2)[0]:
+                    raise
+                exc = e2
+            rec.check("C10.must-raise", exc is not None, op="write-in-read-block", cls=label, attr=sc, detail="a write inside fetch_active_workspace(ws, mode='r') was accepted")
+            watch.judge(rec, w, "write-in-read-block", label, sc)
+        judge_close(rec, watch, label, "fetch_active_workspace(mode='r')")
+        rw2 = Workspace(path)
+        ent = rw2.get_entity(obj_uid)[0]
+        rw2.close()
+        watch = FileWatch(path)
+        out = os.path.join(d, "monitored")
+        os.makedirs(out, exist_ok=True)
+        try:
+            monitored_directory_copy(out, ent)
+        except Exception as exc2:  # noqa: BLE001
+            if not exc_origin(exc2)[0]:
+                raise
+            rec.see("raised:" + type(exc2).__name__)
+        rec.check("C10.bytes", watch.sha() == watch.h0, op="monitored_directory_copy:closed-source", cls=label, attr=sc, detail="exporting an entity of a closed workspace changed the source file")
+        rec.see("calls-judged")
+        judge_close(rec, watch, label, "monitored_directory_copy")
     elif sc in ("elevate_then_default", "ui_json_then_default"):
         # an explicit, temporary writable session is the user's right; afterwards the workspace constructed read-only must come
         # back read-only from every default re-open, and writes must be refused again
